@@ -526,6 +526,89 @@ func (l *lineage) twinSplitScenario() {
 	}
 }
 
+// recurTwinScenario makes the SAME node pair arise as a new link twice in one generation, once as a forward link (in a
+// genome where no path leads back) and once as a recurrent link (in a genome where a path does): two different
+// innovations that differ only in the recurrence flag.
+func (l *lineage) recurTwinScenario(forwardFirst bool) {
+	start := l.pool[0]
+	saved := l.opts.RecurOnlyProb
+	defer func() { l.opts.RecurOnlyProb = saved }()
+	added := func(m *member, base *genetics.Genome) *genetics.Gene {
+		if len(m.g.Genes) != len(base.Genes)+1 {
+			return nil
+		}
+		have := map[int64]bool{}
+		for _, g := range base.Genes {
+			have[g.InnovationNum] = true
+		}
+		for _, g := range m.g.Genes {
+			if !have[g.InnovationNum] {
+				return g
+			}
+		}
+		return nil
+	}
+	// 1. P = start + a forward link u->v between two neurons
+	var P *member
+	var u, v int
+	l.opts.RecurOnlyProb = 0
+	for try := 0; try < 25 && P == nil; try++ {
+		c := l.duplicate(start)
+		if c == nil {
+			return
+		}
+		l.mutate(c.gid, c.g, "addlink")
+		if g := added(c, start.g); g != nil && !g.Link.IsRecurrent && !g.Link.InNode.IsSensor() && g.Link.InNode.Id != g.Link.OutNode.Id {
+			P, u, v = c, g.Link.InNode.Id, g.Link.OutNode.Id
+		}
+	}
+	if P == nil {
+		return
+	}
+	l.pop.VerifClearInnovations()
+	l.emit(map[string]interface{}{"ev": "gen", "reglen": len(l.pop.VerifInnovationsUnsafe())})
+	// 2. in ONE generation: v->u as a forward link in a copy of the start genome, and as a recurrent link in a copy of P
+	forward := func() bool {
+		l.opts.RecurOnlyProb = 0
+		for try := 0; try < 70; try++ {
+			c := l.duplicate(start)
+			if c == nil {
+				return false
+			}
+			l.mutate(c.gid, c.g, "addlink")
+			if g := added(c, start.g); g != nil && g.Link.InNode.Id == v && g.Link.OutNode.Id == u && !g.Link.IsRecurrent {
+				return true
+			}
+		}
+		return false
+	}
+	recurrent := func() bool {
+		l.opts.RecurOnlyProb = 1
+		for try := 0; try < 70; try++ {
+			c := l.duplicate(P)
+			if c == nil {
+				return false
+			}
+			l.mutate(c.gid, c.g, "addlink")
+			if g := added(c, P.g); g != nil && g.Link.InNode.Id == v && g.Link.OutNode.Id == u && g.Link.IsRecurrent {
+				return true
+			}
+		}
+		return false
+	}
+	var a, b bool
+	if forwardFirst {
+		a = forward()
+		b = recurrent()
+	} else {
+		b = recurrent()
+		a = forward()
+	}
+	if a && b {
+		l.stats["recur-twin-scenarios"]++
+	}
+}
+
 func recordLineage(args []string) int {
 	fs := flag.NewFlagSet("record-lineage", flag.ExitOnError)
 	out := fs.String("out", "", "NDJSON trace file")
@@ -554,6 +637,7 @@ func recordLineage(args []string) int {
 		l.reset(int(*seed) + s)
 		l.twinSplitScenario()
 		l.conflictScenario()
+		l.recurTwinScenario((int(*seed)+s)%2 == 0)
 		for i := 0; i < *steps; i++ {
 			l.step()
 		}
